@@ -22,7 +22,8 @@ RULE = ('one real daemon per case with 1-3 managed sockets (inet on port 0, unix
         'socket) and 2-3 watchers referring to them through $(circus.sockets.NAME) / ((circus.sockets.NAME)) in cmd '
         'or args, plus one watcher without use_sockets; 6 (quick) / 10 (thorough) generations driven by external '
         'SIGKILL of all workers, restart, reload, sequential reload, incr, decr, reloadconfig of the unchanged '
-        'file and reloadconfig after editing an option of one watcher section (the watcher is re-created). non-trivial = a generation in which at least one new worker was inspected; distinct = (socket set, '
+        'file, reloadconfig after editing an option of one watcher section (the watcher is re-created), and a '
+        'period in which process creation fails (working directory gone) followed by a start. non-trivial = a generation in which at least one new worker was inspected; distinct = (socket set, '
         'reference syntax, action sequence)')
 ASSUMPTIONS = ['so_reuseport sockets are bound per worker by design: only "a listening socket at that descriptor" is '
                'checked for them', 'inode identity is read from /proc/<pid>/fd of the daemon and of each worker']
@@ -30,7 +31,7 @@ BUDGET = {'quick': 400, 'thorough': 2400}
 MAX_SHARDS = 8
 CASE_TIMEOUT = 200
 ACTIONS = ['extkill', 'restart', 'reload', 'reloadseq', 'incr', 'decr', 'reloadconfig', 'extkill', 'reloadconfig-edit',
-           'reloadconfig-edit']
+           'reloadconfig-edit', 'failspawn', 'failspawn']
 
 
 def plan(tier, seed):
@@ -68,7 +69,8 @@ def ini_for(d, conf):
             txt += '[watcher:%s]\ncmd = %s --fd %s\n' % (w['name'], base, w['ref'])
         else:
             txt += '[watcher:%s]\ncmd = %s\nargs = --fd %s\n' % (w['name'], base, w['ref'])
-        txt += 'use_sockets = True\nnumprocesses = %d\ngraceful_timeout = 1\ncopy_env = True\n\n' % w['np']
+        txt += ('use_sockets = True\nnumprocesses = %d\ngraceful_timeout = 1\ncopy_env = True\nworking_dir = @DIR@/wd_%s\n\n'
+                % (w['np'], w['name']))
     txt += ('[watcher:plain]\ncmd = %s\nnumprocesses = 1\ngraceful_timeout = 1\ncopy_env = True\n\n'
             % live.worker_cmd({'log': '@LOG@', 'dump': True, 'tagw': 'plain'}))
     return txt
@@ -83,6 +85,8 @@ def run_case(spec):
     d.ini = ini_for(d, conf).replace('@DIR@', d.dir).replace('@LOG@', d.logdir)
     with open(d.ini_path, 'w') as f:
         f.write(d.ini)
+    for w in conf['watchers']:
+        os.mkdir(os.path.join(d.dir, 'wd_%s' % w['name']))
     nv = len(res.viol)
     try:
         _case(d, conf, actions, rnd, res)
@@ -147,6 +151,8 @@ def _case(d, conf, actions, rnd, res):
                 c.connect(os.path.join(d.dir, '%s.sock' % name))
             else:
                 port = _port_of(d.pid, m['fd'])
+                if port is None:
+                    return 'the daemon no longer holds a listening inet socket at descriptor %d' % m['fd']
                 c = socket.socket()
                 c.settimeout(2)
                 c.connect(('127.0.0.1', port))
@@ -229,6 +235,22 @@ def _case(d, conf, actions, rnd, res):
             d.call('incr', name=wn, waiting=True, timeout=15)
         elif act == 'decr':
             d.call('decr', name=wn, waiting=True, timeout=15)
+        elif act == 'failspawn':
+            # process creation fails for a while (the working directory is gone): every retry of the respawn
+            # raises in the daemon; afterwards the directory is back and the watcher is started again
+            wd = os.path.join(d.dir, 'wd_%s' % wn)
+            os.rename(wd, wd + '.away')
+            for p in d.call('list', name=wn).get('pids', []):
+                try:
+                    os.kill(p, 9)
+                except OSError:
+                    pass
+            t_end = time.time() + 6
+            while time.time() < t_end and d.call('status', name=wn).get('status') != 'stopped':
+                time.sleep(0.1)
+            res.obs['failed_spawn_episodes'] += int(d.call('status', name=wn).get('status') == 'stopped')
+            os.rename(wd + '.away', wd)
+            d.call('start', name=wn, waiting=True, timeout=15)
         elif act == 'reloadconfig':
             d.call('reloadconfig', waiting=True, timeout=15)
         elif act == 'reloadconfig-edit':
